@@ -24,6 +24,7 @@
   proves that this is the table extracted from the current working tree.
 -/
 import TypedpyModel.Lemmas.Elab
+import TypedpyModel.Lemmas.ElabFlat
 import TypedpyModel.Sem.Deser
 import TypedpyModel.Sem.Schema
 namespace Typedpy.C13
@@ -482,6 +483,61 @@ theorem tuple_single_equiv :
     ∧ validate noRe d (.tuple [.str "a"]) = .error .typeErr :=
   ⟨SameMeaning.coll .pep585 .call .tuple (SameMeaning.scalar .builtin .cls .int),
    rfl, rfl, rfl, rfl, rfl, rfl, rfl, rfl, rfl⟩
+
+/-! ### typing's own rewriting of unions: flattening (and, below, de-duplication) -/
+
+/-- Directly nested `Union[…]` / `Optional[…]` (which `typing` flattens - documented: "unions of unions are flattened"):
+    a tree of them over supported, pairwise distinct leaves elaborates to the AnyOf of the FLATTENED documented
+    alternatives (`Spec/Meaning.flatAlts`), through the model's `mkUnion` (= typing's flatten + de-duplicate).
+    Structural induction over the tree (`Lemmas/ElabFlat`): no depth bound. -/
+theorem elaborate_flatten (s : Sp) (ht : isUnionTree s = true) (hl : leavesOk tm s = true)
+    (hd : allDistinct (flatObjs tm s) = true) :
+    elaborateAnn tm s = .ok (some (.anyOf (flatAlts s))) :=
+  elaborateAnn_flatten s ht hl hd
+
+/-- Hence any two bracketings / spellings with the same flattened alternatives are the same annotation:
+    `Union[Union[A, B], C]` ~ `Union[A, Union[B, C]]`, `Optional[Union[A, B]]` ~ `Union[A, Union[B, None]]` ~
+    `Union[A, Optional[B]]`, with each leaf in any of its own equivalent spellings. -/
+theorem flatten_equiv (s t : Sp) (hs : isUnionTree s = true) (ht : isUnionTree t = true)
+    (ls : leavesOk tm s = true) (lt : leavesOk tm t = true)
+    (ds : allDistinct (flatObjs tm s) = true) (dt : allDistinct (flatObjs tm t) = true)
+    (h : flatAlts s = flatAlts t) : elaborateAnn tm s = elaborateAnn tm t :=
+  Elab.flatten_equiv s t hs ht ls lt ds dt h
+
+/-- Field level: such an annotation declares the flattened AnyOf; the field is optional iff `None` is among the
+    flattened alternatives (in any position, at any nesting depth of the tree) or the name is in `_optional`. -/
+theorem elabField_flatten (O : Oracles) (future : Bool) (name : String) (inOpt : Bool) (s : Sp)
+    (ht : isUnionTree s = true) (hl : leavesOk tm s = true) (hd : allDistinct (flatObjs tm s) = true) :
+    elabField O tm future { name := name, mode := .ann, ty := s, inOptional := inOpt }
+      = .ok (.field (.anyOf (flatAlts s)) (!((flatAlts s).any isNoneF || inOpt)) none) := by
+  simp [elabField, evTop, ev_flatten s ht hl hd, annField, isFieldObj, isSclsObj, gtli_flatten s hl hd, afterGtli,
+    finishField, hasNoneOpt]
+
+/-- non-vacuity: `Union[Union[int, None], str]`, `Union[int, Union[None, str]]` and `Union[Optional[int], str]`
+    are union trees over distinct supported leaves with the same flattened alternatives [Integer, None, String]. -/
+theorem flatten_example :
+    let s₁ : Sp := .union (.union (.builtin .int) .noneLit) (.builtin .str)
+    let s₂ : Sp := .union (.builtin .int) (.union .noneLit fStr)
+    let s₃ : Sp := .union (.optional (.finst .int)) (.builtin .str)
+    isUnionTree s₁ = true ∧ leavesOk tm s₁ = true ∧ allDistinct (flatObjs tm s₁) = true
+    ∧ isUnionTree s₂ = true ∧ leavesOk tm s₂ = true ∧ allDistinct (flatObjs tm s₂) = true
+    ∧ leavesOk tm s₃ = true ∧ allDistinct (flatObjs tm s₃) = true
+    ∧ flatAlts s₁ = [.integer {}, .noneF, .string none none none]
+    ∧ flatAlts s₂ = flatAlts s₁ ∧ flatAlts s₃ = flatAlts s₁
+    ∧ elabField noRe tm false (annF s₁) = .ok (.field (.anyOf [.integer {}, .noneF, .string none none none]) false none)
+    ∧ elabField noRe tm true (annF s₂) = elabField noRe tm false (annF s₁)
+    ∧ elabField noRe tm true (annF s₃) = elabField noRe tm false (annF s₁) :=
+  ⟨rfl, rfl, rfl, rfl, rfl, rfl, rfl, rfl, rfl, rfl, rfl, rfl, rfl, rfl⟩
+
+/-- typing's de-duplication ("redundant arguments are skipped"): for a supported spelling `x` that is not a Field
+    INSTANCE and not itself a union, `Union[x, x]` IS `x` - the annotation elaborates to the single field, not to an
+    AnyOf (this is what separates it from `AnyOf[X, X]`: finding `typing-union-duplicate`). -/
+theorem union_duplicate_collapses (x : Sp) (hs : supported tm x = true) (hu : unionLike x = false)
+    (he : ∀ o, ev tm x = .ok o → objEq o o = true) :
+    elaborateAnn tm (.union x x) = elaborateAnn tm x := by
+  obtain ⟨o, hev, g⟩ := ev_good x hs
+  have hm := unionMembers_of_gtli g.gt (g.nu hu)
+  simp [elaborateAnn, ev, hev, hm, mkUnion, dedupObj, he o hev]
 
 /-! ### Structure classes as field types, two-element tuples -/
 
